@@ -131,7 +131,7 @@ def strict_profile(text: str) -> list[tuple[str, int, str]]:
         # ---- operators and spacing in the code part
         for a in ALIAS.finditer(re.sub(r"\$[A-Za-z0-9_:]+|(?<=[\w.\-])<(?:[A-Za-z_][A-Za-z0-9_,]*)?>", lambda m: "_" * len(m.group(0)), code)):  # $VAR tokens and NAME<qualifier> are opaque
             bad.append(("ascii-alias", k, f"{a.group(0)!r} at col {a.start() + 1}: {line!r}"))
-        if re.search(r" ::|:: ", code):
+        if re.search(r" ::|:: ", re.sub(r"\$[A-Za-z0-9_:]+", lambda m: "_" * len(m.group(0)), code)):  # colons inside a $VAR token are not the assignment operator
             bad.append(("space-around-assign", k, repr(line)))
         # ---- containers opened by this line
         opens = code.count("[") - code.count("]")
